@@ -253,8 +253,8 @@ func (c *composer) accRuleSet(rules []SRule, doc *Value, guard []string) bool {
 }
 
 type mergedProp struct {
-	p        *SProp
-	keysOpt  bool // optionality default of the text that declared it
+	p         *SProp
+	keysOpt   bool // optionality default of the text that declared it
 	inherited bool
 }
 
